@@ -30,16 +30,7 @@ def make(rnd, k):
     return {'funs': [{'name': 'f', 'kind': kind, 'sig': fsig, 'stack': stack, 'body': body}], 'driver': driver}
 
 
-def corpus():
-    import os, glob
-    d = os.path.join(os.path.dirname(os.path.dirname(os.path.dirname(os.path.abspath(__file__)))), 'corpus', pid)
-    return [json.load(open(f)) for f in sorted(glob.glob(os.path.join(d, '*.json')))]
-
-
-def scenarios(tier, seed):
-    rnd = random.Random(seed * 7919 + 1)
-    n = 3000 if tier == 'thorough' else 400
-    return corpus() + [make(rnd, k) for k in range(n)]
+N_QUICK, N_THOROUGH = 400, 3000
 
 
 def configured(v, default):
@@ -104,43 +95,18 @@ def nontrivial(sc, obs):
     return any(a.validators() for a in acts)
 
 
-def run(ctx, fr, model_available=True, scs=None, label='C01'):
-    scs = scs if scs is not None else scenarios(ctx.tier, ctx.seed)
-    im = scn.run_impl(scs)
-    mo, errs = (scn.run_model(label, scs) if model_available else ([None] * len(scs), []))
-    fr.errors += errs
-    kinds = {}
-    for sc, oi, om in zip(scs, im, mo):
-        fr.evaluations += 1
-        if nontrivial(sc, oi): fr.add_nontrivial(sc)
-        kinds[sc['funs'][0]['kind']] = kinds.get(sc['funs'][0]['kind'], 0) + 1
-        for what, tag in monitor(sc, oi):
-            fr.violations.append({'scenario': sc, 'impl': oi, 'what': what, 'signature': tag})
-        if om is not None:
-            fr.programs += 1; fr.traces_validated += 1
-            if om != oi:
-                fr.disagreements.append({'scenario': sc, 'impl': oi, 'model': om})
-    fr.rule = ('random function signature (0-4 parameters of all five kinds, defaults), 1-3 preconditions (explicit / `_` / message-returning, '
-               'custom exception classes and instances, raising validators), sync/async/generator, 2-4 calls each (positional, keyword, mixed, '
-               'omitted defaults, ill-formed); non-trivial = at least one validator was invoked')
-    fr.samples += [{'scenario': scs[0], 'impl': im[0]}]
-    fr.distribution = {'kinds': kinds, 'scenarios': len(scs)}
+RULE = ('random function signature (0-4 parameters of all five kinds, defaults), 1-3 preconditions (explicit / `_` / message-returning, '
+        'custom exception classes and instances, raising validators), sync/async/generator, 2-4 calls each (positional, keyword, mixed, '
+        'omitted defaults, ill-formed); non-trivial = at least one validator was invoked')
 
 
-def search(ctx, fr, model_available=True):
-    for k in range(1, 6):
-        scs = scenarios('thorough', ctx.seed + 1000 * k)[:1500]
-        im = scn.run_impl(scs)
-        for sc, oi in zip(scs, im):
-            fr.evaluations += 1
-            for what, tag in monitor(sc, oi):
-                fr.violations.append({'scenario': sc, 'impl': oi, 'what': what, 'signature': tag})
-        if [v for v in fr.violations if not v.get('signature')]:
-            return
+def features(sc, obs):
+    return ['kind=' + sc['funs'][0]['kind']]
 
 
-def classify(v, findings):
-    for f in findings:
-        if f.get('signature') and f['signature'] == v.get('signature'):
-            return f['id']
-    return None
+import sys as _sys
+from . import base_scn
+_me = _sys.modules[__name__]
+def run(ctx, fr, model_available=True): return base_scn.run(_me, ctx, fr, model_available)
+def search(ctx, fr, model_available=True): return base_scn.search(_me, ctx, fr, model_available)
+classify = base_scn.classify
